@@ -312,6 +312,10 @@ def _update_local_references(rules):
         counter.previsit(node)
         if node.is_reference and counter.is_bound(node.name):
             node.is_local = True
+        elif node.is_reference and counter.is_visible(node.name):
+            # An earlier field of the class: its value is held by a local
+            # variable, which a helper function needs to be given.
+            node.local_names = [node.name]
         names = node.mentioned_names()
         if names:
             node.local_names = sorted(x for x in names if counter.is_visible(x))
